@@ -187,3 +187,49 @@ Record start_ok (P : list msg) (i : nat) (s : state) : Prop := mkso {
 }.
 
 End Good.
+
+(* ------------------------------------------------------------------------------------------ *)
+(* Additional hypotheses for a round r > 1                                                     *)
+
+Section Good2.
+Variables (n fifo_ : nat) (ld : nat -> nat) (r : nat).
+
+(* closure conditions on the pool while the leader has not proposed yet *)
+Record pool_fresh (P : list msg) : Prop := mkpf {
+  (* nobody has a value for round r yet *)
+  pf_nocar : forall m, In m P -> carrier ld r (main m) = false;
+  (* PREPAREs (of lower rounds, possibly quoted in justifications) are well formed *)
+  pf_prep : forall m b, In m P -> In b (main m :: just m) -> ty b = Prepare -> 1 <= rnd b /\ val b <> 0%N;
+  (* no ROUND-CHANGE(r) is quoted inside another message *)
+  pf_nest : forall m b, In m P -> In b (just m) -> f_rc r b = false;
+  (* no equivocation on ROUND-CHANGE(r): one (pr, pv) per source *)
+  pf_uniq : forall m m', In m P -> In m' P -> f_rc r (main m) = true -> f_rc r (main m') = true ->
+            src (main m) = src (main m') -> pr (main m) = pr (main m') /\ pv (main m) = pv (main m')
+}.
+
+(* the same for what the leader has already buffered *)
+Record buf_fresh (P : list msg) (s : state) : Prop := mkbf {
+  bf_prep : forall b, In b (flat (buffer s)) -> ty b = Prepare -> 1 <= rnd b /\ val b <> 0%N;
+  bf_nest : forall m b, In m (bufmsgs (buffer s)) -> In b (just m) -> f_rc r b = false;
+  (* reachable-state fact: a buffered ROUND-CHANGE passed isJustifiedRoundChange *)
+  bf_rc : forall m, In m (bufmsgs (buffer s)) -> f_rc r (main m) = true ->
+          justified_roundchange (pp n fifo_ ld (ld r)) m = true /\ has_main P (main m)
+}.
+
+(* the leader of round r: has its input, never had a Compare failure, and either has not run the
+   QRC rule of round r yet (empty cache) or its PRE-PREPARE(r) is in the pool *)
+Record leader_ok (P : list msg) (s : state) : Prop := mklo {
+  lo_input : input s <> 0%N;
+  lo_cfr : cfr s = 0;
+  lo_fresh : is_dup s QRC r = false -> ppj s = PNone /\ pool_fresh P /\ buf_fresh P s;
+  lo_sent : is_dup s QRC r = true ->
+      exists ml, In ml P /\ ty (main ml) = PrePrepare /\ rnd (main ml) = r
+                 /\ forall i c, justified (pp n fifo_ ld i) ml c = true
+}.
+
+(* every member of R has broadcast a justified ROUND-CHANGE(r) and it is in the pool *)
+Definition rcs_in_pool (R : list nat) (P : list msg) : Prop :=
+  forall i, In i R -> exists m, In m P /\ f_rc r (main m) = true /\ src (main m) = i
+                                /\ justified_roundchange (pp n fifo_ ld (ld r)) m = true.
+
+End Good2.
